@@ -1,5 +1,6 @@
 import HvsrVerif.Proto
 import HvsrVerif.Model.HvAz
+import HvsrVerif.Model.ObjectIO
 /-! driver commands for the HVSR-object state machine (C05 C06 C08 C11 C12 C13) -/
 namespace HV.Drv
 open HV.Proto
@@ -131,6 +132,18 @@ def hvCmd (op : String) (st : Store) : Option (P (Store × String)) :=
         | .ok (k, s') =>
           let o' := HvObj.az s'
           pure (st.put id o', s!"ok {k} {fObj o'}"))
+  | "hv.roundtrip" => some (withObj fun id o => do
+      -- write to the text format and read back (labels = bit patterns of the azimuths); the object is replaced
+      let d ← pDist
+      match o with
+      | .trad s =>
+        let f := writeTrad d s
+        let o' := HvObj.trad (readTrad f)
+        pure (st.put id o', s!"ok {fObj o'} derived {fECurve (.ok f.meanCol)} {fECurve f.stdCol}")
+      | .az s =>
+        let f := writeAz (fun a : Float => a.toBits.toNat) d s
+        let o' := HvObj.az (readAz (fun n : Nat => Float.ofBits n.toUInt64) f)
+        pure (st.put id o', s!"ok {fObj o'} derived {fECurve f.meanCol} {fECurve f.stdCol} runs {fNVec ((groupLabels f.labels).map (·.2))}"))
   | "hv.state" => some (withObj fun _ o => pure (st, "ok " ++ fObj o))
   | "hv.stat" => some (withObj fun _ o => do
       let d ← pDist
